@@ -203,6 +203,27 @@ def run(ctx):
                     viol(f'{fam} with parameters in {punit} in a {unit}/{dt} module: variates are not the plain variates x the unit factor {fac} (ratios {ratio.min():.6f}..{ratio.max():.6f})', dict(unit=unit, dt=dt, punit=punit, family=fam))
                 elif fac is None and ratio.max() - ratio.min() > 1e-6 * abs(ratio.mean()):
                     viol(f'{fam} with parameters in {punit} in a {unit}/{dt} module: the variates are not a constant multiple of the plain variates', dict(unit=unit, dt=dt, punit=punit, family=fam))
+    # the unit of a time-wrapped parameter may change between draws (set()): the next variates are scaled by the NEW factor
+    try:
+        s4 = ss.Sim(n_agents=500, unit='day', dt=7.0, start='2000-01-01', dur=3, verbose=0, diseases=ss.SIS()); s4.init(); mod4 = s4.diseases.sis
+        for fam, mkd in (('normal', lambda w: ss.normal(loc=w(10), scale=w(2))), ('expon', lambda w: ss.expon(scale=w(5))), ('uniform', lambda w: ss.uniform(low=w(2), high=w(9)))):
+            seed = rng.randrange(1, 10**6)
+            def build(unit_):
+                d = mkd(lambda v: ss.dur(v, unit_))
+                for pv in d.pars.values():
+                    if isinstance(pv, ss.TimePar): pv.init(parent=mod4.t)
+                d.init(trace='c05_tp2', seed=seed, sim=s4, module=mod4, force=True); return d
+            d = build('week'); d.rvs(s4.people.auids); d.jump(to=5, force=True)
+            newp = {k: ss.dur(float(pv.v), 'year') for k, pv in d.pars.items() if isinstance(pv, ss.TimePar)}
+            for pv in newp.values(): pv.init(parent=mod4.t)
+            d.set(**newp)
+            v2 = np.asarray(d.rvs(s4.people.auids), dtype=float)
+            ref = build('year'); ref.jump(to=5, force=True); r2 = np.asarray(ref.rvs(s4.people.auids), dtype=float)
+            ctx.count(('tp-reset-unit', fam), nontrivial=True); ctx.dist('time-wrapped unit changed between draws')
+            if not np.allclose(v2, r2, rtol=1e-6, atol=1e-9):
+                viol(f'{fam}: after its parameters were re-set from weeks to years, the variates are {v2[:2]} ...; a distribution built in years draws {r2[:2]} ... at the same state (ratio {float(np.median(v2 / r2)):.5f})', dict(family=fam, probe='tp-reset-unit'))
+    except Exception as E:
+        viol(f'changing the unit of a time-wrapped parameter between draws raised {type(E).__name__}: {E}', dict(probe='tp-reset-unit'))
     # a time-wrapped callable probability is evaluated afresh at every call
     try:
         s3 = ss.Sim(n_agents=4000, dur=3, verbose=0, diseases=ss.SIS()); s3.init(); mod3 = s3.diseases.sis
